@@ -14,7 +14,14 @@ from spec import frames as SF
 PID = "C04"
 
 
-def _sym_text(path, n_units, hex_only):
+def _sym_text(path, n_units, hex_only, lower=False):
+    if lower:
+        # the lower-case spelling of n_units/2 free bytes (what hexlify produces): no per-character case split, long strings stay cheap
+        from harness import apiops as A
+
+        raw = A.fresh_bytes(path, "b", n_units // 2)
+        path.notes["raw_bytes"] = raw
+        return stubs.s_hexlify(raw).m_decode()
     units = []
     for i in range(n_units):
         v = path.fresh_bv("c%d" % i, 8)
@@ -27,6 +34,17 @@ def _sym_text(path, n_units, hex_only):
 
 
 def run_case(case, eng, res):
+    # long inputs: the CRC byte step is an uninterpreted function (equal folds over equal bytes are equal by congruence; the
+    # bit-precise model - quadratic in z3 once its XOR chains are flattened - decides the lengths up to 160 bytes)
+    old = stubs.CRC_MODE
+    stubs.CRC_MODE = case.get("crc", "bits")
+    try:
+        _run_case(case, eng, res)
+    finally:
+        stubs.CRC_MODE = old
+
+
+def _run_case(case, eng, res):
     tools = loader.load("device.tools")
     n_units, hex_only = case["units"], case["hex_only"]
     saw = {"ok": 0, "exc": 0}
@@ -40,7 +58,7 @@ def run_case(case, eng, res):
             except Exception:  # noqa: BLE001
                 pass
             path.notes["first_text"] = s0
-        s = _sym_text(path, n_units, hex_only)
+        s = _sym_text(path, n_units, hex_only, case.get("lower", False))
         try:
             r = tools.sign_packet_with_crc_key(s)
             return ("ok", s, r)
@@ -53,7 +71,8 @@ def run_case(case, eng, res):
         tag, s, r = out
         saw[tag] += 1
         path.twin("C04 end of path")
-        valid = b_and(n_units % 2 == 0, *[unit_is_hex_cond(u) for u in s.items])
+        lower = bool(case.get("lower"))
+        valid = True if lower else b_and(n_units % 2 == 0, *[unit_is_hex_cond(u) for u in s.items])
         te = path.notes.get("timeenv")
         w = path.notes.get("world")
         if (te and te.reads) or (w and w.events):
@@ -70,8 +89,9 @@ def run_case(case, eng, res):
             if ok_len:
                 checks["prefix_unaltered"] = SymSeq("str", r.items[:n_units]).eq(s)
                 # reference signature over the bytes the hex text denotes
-                bs = [U8(z3.Concat(general_unit_nibble(s.items[2 * i]), general_unit_nibble(s.items[2 * i + 1])))
-                      for i in range(n_units // 2)]
+                bs = list(path.notes["raw_bytes"].items) if lower else \
+                    [U8(z3.Concat(general_unit_nibble(s.items[2 * i]), general_unit_nibble(s.items[2 * i + 1])))
+                     for i in range(n_units // 2)]
                 sig = SF.signature(O, SymSeq("bytes", bs))
                 exp = stubs.s_hexlify(sig).m_decode()
                 checks["signature"] = SymSeq("str", r.items[n_units:]).eq(exp)
@@ -93,13 +113,23 @@ def run_case(case, eng, res):
         res["witnesses"].append({
             "replay": dict({"kind": "call", "func": "device.tools:sign_packet_with_crc_key", "args": [text], "oracle": "C04"},
                            **({"before": [C.ev_seq(m, path.notes["first_text"])]} if "first_text" in path.notes else {})),
-            "expected": C.conc(m, r) if tag == "ok" else {"exception": type(r).__name__},
+            "expected": _expected(case, m, r, text) if tag == "ok" else {"exception": type(r).__name__},
         })
         if len(res["samples"]) < 2:
             res["samples"].append({"case": case, "path": tag, "witness_input": text,
                                    "result": C.conc(m, r) if tag == "ok" else type(r).__name__})
     if hex_only and n_units % 2 == 0 and saw["ok"] == 0:
         raise E.HarnessError("no returning path for valid hex input")
+
+
+def _expected(case, m, r, text):
+    """what the real function must return for the witness input: the symbolic result under the model - except that an
+    uninterpreted CRC has no value of its own, there the reference signature of the witness input stands in"""
+    if case.get("crc") != "uf":
+        return C.conc(m, r)
+    from spec.ops_concrete import O as OC
+
+    return text + bytes(SF.signature(OC, bytes.fromhex(text))).hex()
 
 
 def _viol(path, m, s, case, what):
@@ -161,6 +191,12 @@ def main(tier):
     cases = [{"units": 2 * n, "hex_only": True} for n in range(0, maxn + 1)]
     cases += [{"units": k, "hex_only": False} for k in range(1, 7)]
     cases += [{"units": 2 * n, "hex_only": True, "second_call": True} for n in (1, 2, 4)]
+    # long byte strings (the statement reaches 4 KiB): lower-case spelling of n free bytes, CRC step uninterpreted
+    if tier == "quick":
+        long_lens = sorted({(1 << k) + d for k in range(5, 13) for d in (-1, 0, 1)})
+    else:
+        long_lens = sorted(set(range(161, 1101)) | {64 * k + d for k in range(17, 67) for d in (-1, 0, 1)})
+    cases += [{"units": 2 * n, "hex_only": True, "lower": True, "crc": "uf"} for n in long_lens]
     results = H.run_cases("harness.C04", "run_case", cases, timeout_ms=60000 if tier == "quick" else 600000)
     # witness validation on the unmodified function
     wit = [w for r in results for w in r["witnesses"]]
@@ -179,8 +215,12 @@ def main(tier):
         PID, tier, "model_checking", results, t0,
         rule="one symbolic run of sign_packet_with_crc_key per text length; every unit a free ASCII character "
              "(constrained to [0-9a-fA-F] for the valid-input cases); a path is one (returns | raises) outcome",
-        bounds={"valid_hex_bytes": "0..%d" % maxn, "free_text_units": "1..6", "characters": "ASCII (< 128)",
-                "outside": "byte strings longer than %d; non-ASCII text" % maxn},
+        bounds={"valid_hex_bytes": "0..%d in every upper/lower-case spelling, bit-precise CRC" % maxn,
+                "long byte strings": ("lengths 2^k-1, 2^k, 2^k+1 for k = 5..12 (31..4097 bytes)" if tier == "quick" else
+                                      "every length 161..1100 and every length = -1, 0, 1 mod 64 up to 4225 bytes") +
+                                     ", lower-case spelling, CRC byte step uninterpreted (congruence)",
+                "free_text_units": "1..6", "characters": "ASCII (< 128)",
+                "outside": "byte strings longer than 4225 bytes; upper-case spellings beyond %d bytes; non-ASCII text" % maxn},
         assumptions=[
             "binascii.hexlify/unhexlify/crc_hqx and struct.pack behave as their stubs (validated on %d concrete CRC inputs "
             "and on one witness per path against the real function)" % nlem,
